@@ -652,7 +652,11 @@ where
                                 break;
                             }
                         }
-                        Ok(None) => break,
+                        Ok(None) => {
+                            // The subscription had already delivered the done event before it was mirrored.
+                            inner.done = true;
+                            break;
+                        }
                         Err(err) => {
                             inner.error = Some(err);
                             return;
